@@ -11,6 +11,8 @@
    product) are part of C16_matrix, so reverting the repair breaks the correspondence
    AND the direct predicate on concrete inputs. *)
 From DW Require Import PyStr PropWiz PropWizMatrix PropWizDict PropWizExec PropWizPass PropWizMany PropWizFinal.
+From DW Require Import PropWizObj T_PropWizDefaultsAlg PropWizDefaults.
+From Coq Require Import Permutation.
 
 (* ---- the finite matrix: 4 styles x 10 default kinds x 47 annotation kinds ---------------- *)
 (* In every cell the single-property class has the constructor signature
@@ -160,3 +162,124 @@ Theorem C16_readonly_untouched :
 Proof. intros ds b d Hok. exact (untouched_closed ds Hok b d). Qed.
 Print Assumptions C16_readonly_untouched.
 
+
+(* ==== the zero-value derivation (property_wizard.py:182-302), tied to the SOURCE TEXT ================= *)
+(* gen/T_PropWizDefaultsAlg.v is printed on every run by harness/tables/PropWizDefaultsAlg.py from the
+   current source of _process_field, _default_from_annotation, _default_from_type,
+   _default_from_generic_type and _default_from_typing_args: same order of tests, same caught exception
+   per `try`, same callee and argument per call, every library operation a primitive of
+   model/PropWizObj.v.  Closed with `dfa` for the recursive calls, the translated function IS `dfa`, for
+   ALL annotations of the grammar - so everything proved about `dfa` (the matrix, C16_many, the
+   theorems below) is about the decision structure the source spells out NOW; an edit of that structure
+   (an `isinstance` turned into a type test, a reordered branch, a cached helper with another argument,
+   a different fallback) either fails the translator or this proof. *)
+Theorem C16_defaults_source_tie :
+  forall t, default_from_annotation_src dfa_obj (OT t) = dfa t.
+Proof. exact defaults_source_tie. Qed.
+Print Assumptions C16_defaults_source_tie.
+
+(* ... and `dfa` is the ONLY function satisfying the source's recursion equation *)
+Theorem C16_defaults_source_unique :
+  forall f : ty -> fdef,
+  (forall t, f t = default_from_annotation_src (lift_obj f) (OT t)) -> forall t, f t = dfa t.
+Proof. exact defaults_source_unique. Qed.
+Print Assumptions C16_defaults_source_unique.
+
+Theorem C16_process_field_source_tie :
+  forall fd t, process_field_src dfa_obj (OT t) (OFd fd) = process_field fd (Some t).
+Proof. exact process_field_source_tie. Qed.
+Print Assumptions C16_process_field_source_tie.
+
+(* the translated text, on a nested annotation: Annotated[Optional[...]] without a Field falls to the
+   Union, whose None member wins; with a Field that has no default it falls to the inner type *)
+Example C16_defaults_source_example :
+  default_from_annotation_src dfa_obj
+    (OT (TRef (Some (TAnnot (TUnion [TConc CMyList; TConc CInt]) [EOther; EField fd_empty; EField (fd_def (VInt 3))]))))
+  = fd_fac (FacConc CMyList).
+Proof. reflexivity. Qed.
+
+(* ---- what the derived default IS, for ALL annotations ------------------------------------------------ *)
+(* `implied` (model/PropWizObj.v) is the specification transcribed from the property text; `routed_of`
+   is what _wrapper sends to the setter for a Field (fresh product / the value / None). *)
+Theorem C16_defaults_spec : forall t, routed_of (dfa t) = implied t.
+Proof. exact dfa_meets_implied. Qed.
+Print Assumptions C16_defaults_spec.
+
+(* (i) None iff NoneType is a member - at ANY position; otherwise the zero value of the FIRST member *)
+Theorem C16_defaults_union_none :
+  forall args, In TNoneType args -> routed_of (dfa (TUnion args)) = RValue VNone.
+Proof. exact union_with_none. Qed.
+Print Assumptions C16_defaults_union_none.
+
+Theorem C16_defaults_union_first :
+  forall a rest, ~ In TNoneType (a :: rest) -> routed_of (dfa (TUnion (a :: rest))) = member_routed a.
+Proof. exact union_without_none. Qed.
+Print Assumptions C16_defaults_union_first.
+
+Theorem C16_defaults_union_none_iff :
+  forall a rest, member_routed a <> RValue VNone ->
+  (routed_of (dfa (TUnion (a :: rest))) = RValue VNone <-> In TNoneType (a :: rest)).
+Proof. exact union_none_iff. Qed.
+Print Assumptions C16_defaults_union_none_iff.
+
+Theorem C16_defaults_union_none_any_order :
+  forall args args', Permutation args args' -> In TNoneType args ->
+  routed_of (dfa (TUnion args)) = routed_of (dfa (TUnion args')).
+Proof. exact union_none_any_order. Qed.
+Print Assumptions C16_defaults_union_none_any_order.
+
+Theorem C16_defaults_literal_first : forall v vs, routed_of (dfa (TLiteral (v :: vs))) = RValue v.
+Proof. exact literal_first. Qed.
+Print Assumptions C16_defaults_literal_first.
+
+Theorem C16_defaults_generic_origin : forall c i, routed_of (dfa (TGen (GConc c) i)) = zero_routed c.
+Proof. exact generic_origin. Qed.
+Print Assumptions C16_defaults_generic_origin.
+
+(* (ii) a default_factory (fresh product per instance) exactly when the zero value is an instance of
+   list / dict / set OR OF A SUBCLASS (OrderedDict, defaultdict, Counter, user subclasses of list / set);
+   every other zero value (deque and user objects included) is ONE object made at class creation.
+   Stated for annotations that carry no dataclasses.Field of their own. *)
+Theorem C16_defaults_factory_iff_collection :
+  forall t f, no_field_extra t = true ->
+  (routed_of (dfa t) = RFresh f <->
+   exists c, zero_class t = Some c /\ is_lds_base (conc_base c) = true /\ f = FacConc c).
+Proof. exact factory_iff_collection. Qed.
+Print Assumptions C16_defaults_factory_iff_collection.
+
+Example C16_defaults_factory_subclasses :
+  routed_of (dfa (TUnion [TGen (GConc CCounter) true; TConc CInt])) = RFresh (FacConc CCounter) /\
+  routed_of (dfa (TAnnot (TRef (Some (TConc CMySet))) [EOther])) = RFresh (FacConc CMySet) /\
+  routed_of (dfa (TConc CDeque)) = RValue (VZero CDeque) /\
+  routed_of (dfa (TUnion [TConc CMyList; TNoneType])) = RValue VNone.
+Proof. repeat split. Qed.
+
+(* (iii) the default depends on the ORDER of the members, which Python's == on typing objects ignores
+   (Union[int, str] == Union[str, int], Literal[1, 2] == Literal[2, 1]): two == annotations have
+   different defaults, so a table keyed by the annotation object must not be shared between fields.
+   In the model the derivation is a function of the annotation alone (no state), and by
+   C16_many every field property of a class gets the default of ITS OWN declaration. *)
+Theorem C16_defaults_union_order_matters :
+  forall a b rest, ~ In TNoneType (a :: b :: rest) -> member_routed a <> member_routed b ->
+  Permutation (a :: b :: rest) (b :: a :: rest) /\
+  routed_of (dfa (TUnion (a :: b :: rest))) <> routed_of (dfa (TUnion (b :: a :: rest))).
+Proof. exact union_order_matters. Qed.
+Print Assumptions C16_defaults_union_order_matters.
+
+Theorem C16_defaults_literal_order_matters :
+  forall v w vs, v <> w ->
+  Permutation (v :: w :: vs) (w :: v :: vs) /\
+  routed_of (dfa (TLiteral (v :: w :: vs))) <> routed_of (dfa (TLiteral (w :: v :: vs))).
+Proof. exact literal_order_matters. Qed.
+Print Assumptions C16_defaults_literal_order_matters.
+
+(* one class, two field properties whose annotations are == in Python: each gets its own default *)
+Example C16_defaults_own_default_per_field :
+  construct (make_class (body_blocks
+     [ DProp PubPub (S "a") (TUnion [TConc CInt; TConc CStr]) None;
+       DProp PubPub (S "b") (TUnion [TConc CStr; TConc CInt]) None;
+       DProp UnderUnder (S "c") (TLiteral [VInt 1; VInt 2]) None;
+       DProp UnderUnder (S "d") (TLiteral [VInt 2; VInt 1]) None ])) [] 0 =
+  Ok {| log := [(S "a", VInt 0); (S "b", VStr []); (S "c", VInt 1); (S "d", VInt 2)];
+        inst := [(S "_a", VInt 0); (S "_b", VStr []); (S "_c", VInt 1); (S "_d", VInt 2)]; nxt := 0 |}.
+Proof. reflexivity. Qed.
